@@ -5,7 +5,6 @@ HERE = os.path.dirname(os.path.abspath(__file__))
 
 NA = {
  'C03': 'Optimality "given enough iterations" is a statement about the limit of a numerical iteration against an external optimum; no clause of it is visible in the shape of the code (static analysis only; see DESIGN.md section 4).',
- 'C11': 'Row counts, in-domain values, zero-support and N-independent rounding error are relations between runtime arrays; in the pinned environment synthetic_data raises for a pandas-version reason invisible in the source.',
  'C17': 'The fixed point of the norm-product iteration versus the optimum of a convex programme solved by an independent solver is a numerical comparison.',
 }
 
